@@ -9,15 +9,15 @@ for d in $SRC/C??-out; do
   id=$(basename $d | cut -c1-3)
   for k in 1 2; do
     [ -f $d/patch$k.diff ] || continue
-    out=/verif/seeded/$id-$k
+    out=/verif/seeded/$id-$((k+${SEED_OFFSET:-0}))
     cd $WT && git checkout -q -- . && git clean -fdq
     PYTHONPATH=$WT /venv/bin/python $d/demo$k.py >/tmp/seed_demo0.$$ 2>&1; r0=$?
-    if ! git apply $d/patch$k.diff 2>/tmp/seed_apply.$$; then echo "$id-$k: PATCH DOES NOT APPLY: $(head -2 /tmp/seed_apply.$$)"; continue; fi
+    if ! git apply $d/patch$k.diff 2>/tmp/seed_apply.$$; then echo "$id-$((k+${SEED_OFFSET:-0})): PATCH DOES NOT APPLY: $(head -2 /tmp/seed_apply.$$)"; continue; fi
     suite=$(PYTHONPATH=$WT /venv/bin/python -m pytest -q -p no:cacheprovider --timeout=900 --continue-on-collection-errors 2>&1 | tail -1)
     PYTHONPATH=$WT /venv/bin/python $d/demo$k.py >/tmp/seed_demo1.$$ 2>&1; r1=$?
     git checkout -q -- . && git clean -fdq
     ok=no; if [ $r0 -eq 0 ] && [ $r1 -ne 0 ] && echo "$suite" | grep -q "74 passed"; then ok=yes; fi
-    echo "$id-$k: unchanged_exit=$r0 changed_exit=$r1 suite='$suite' keep=$ok"
+    echo "$id-$((k+${SEED_OFFSET:-0})): unchanged_exit=$r0 changed_exit=$r1 suite='$suite' keep=$ok"
     if [ $ok = yes ]; then
       mkdir -p $out; cp $d/patch$k.diff $out/patch.diff; cp $d/demo$k.py $out/demo.py
       /venv/bin/python - $d/meta$k.json $out/meta.json "$suite" $r0 $r1 <<'PY'
